@@ -2621,16 +2621,16 @@ impl Formatter {
     let mut rows = "".to_string();
     for (i, row) in node.rows.iter().enumerate() {
       let r = self.table_row(row);
-      if i == 0 {
-        rows = format!("{}", r);
-      } else {
+      if i == 0 || self.html {
         rows = format!("{}{}", rows, r);
+      } else {
+        rows = format!("{}\n{}", rows, r);
       }
     }
     if self.html {
       format!("<table class=\"mech-table\">{}<tbody class=\"mech-table-body\">{}</tbody></table>",header,rows)
     } else {
-      format!("{}{}", header, rows)
+      format!("{}\n{}", header, rows)
     }
   }
 
@@ -2640,14 +2640,16 @@ impl Formatter {
       let f = self.field(field);
       if self.html {
         src = format!("{}<th class=\"mech-table-field\">{}</th>",src, f);
+      } else if i == 0 {
+        src = format!("{}", f);
       } else {
-        src = format!("{}{}",src, f);
+        src = format!("{} {}",src, f);
       }
     }
     if self.html {
       format!("<thead class=\"mech-table-header\"><tr>{}</tr></thead>",src)
     } else {
-      src
+      format!("| {} |", src)
     }
   }
 
@@ -2664,7 +2666,7 @@ impl Formatter {
     if self.html {
       format!("<tr class=\"mech-table-row\">{}</tr>",src)
     } else {
-      src
+      format!("| {} |", src)
     }
   }
 
@@ -2687,7 +2689,7 @@ impl Formatter {
     if self.html {
       format!("<div class=\"mech-field\"><span class=\"mech-field-name\">{}</span><span class=\"mech-field-kind\">{}</span></div>",name,kind)
     } else {
-      format!("{}: {}", name, kind)
+      format!("{}{}", name, kind)
     }
   }
 
